@@ -1,6 +1,8 @@
 // C08 — writer accepts only strictly increasing keys and never overwrites a file
 #define VF_MAIN
 #include "addhist.h"
+#include <sys/mman.h>
+#include <fcntl.h>
 using namespace vf;
 
 struct Case {
@@ -8,10 +10,15 @@ struct Case {
   // second part: pre-existing target. kind: 0 none, 1 empty file, 2 file with content, 3 valid table, 4 read-only file,
   // 5 directory, 6 symlink to an existing file
   int pre_kind = 0;
+  int hugekey = 0;  // 1: the fixed scenario with a key of 2^31+1 bytes (thorough tier only, see run_hugekey)
   bool valid() const { return h.valid() && pre_kind >= 0 && pre_kind <= 6; }
   std::string ser() const {
     Out o;
     o << "property C08\n";
+    if (hugekey) {
+      o << "hugekey 1\n";
+      return o.str();
+    }
     o << "pre " << pre_kind << "\n";
     h.ser(o);
     return o.str();
@@ -19,7 +26,8 @@ struct Case {
   static Case parse(const std::string &text) {
     Case c;
     for (auto &row : Lines::parse(text).rows) {
-      if (row[0] == "pre" && row.size() > 1) c.pre_kind = atoi(row[1].c_str());
+      if (row[0] == "hugekey" && row.size() > 1) c.hugekey = atoi(row[1].c_str()) ? 1 : 0;
+      else if (row[0] == "pre" && row.size() > 1) c.pre_kind = atoi(row[1].c_str());
       else c.h.parse_row(row);
     }
     return c;
@@ -33,7 +41,56 @@ static Case gen_case() {
   return c;
 }
 
+// Keys whose lengths differ by 2^31 and more: "strictly greater, a proper prefix sorting first" has no size limit, and a
+// three-way comparison that narrows a size_t difference to int gets exactly these wrong.  The long key is a never-written
+// anonymous mapping (all zero bytes, no memory of its own); the table goes to /dev/null.  The writer keeps copies of an
+// accepted 2 GiB key, so this costs several GiB for a few seconds: thorough tier only, one child, raised limits.
+static Result run_hugekey() {
+  long saved = g_rss_limit_mb;
+  g_rss_limit_mb = 24576;
+  Result res = run_isolated([&](Result &r) {
+    const size_t L = ((size_t)1 << 31) + 1;
+    uint8_t *big = (uint8_t *)mmap(nullptr, L, PROT_READ, MAP_PRIVATE | MAP_ANONYMOUS | MAP_NORESERVE, -1, 0);
+    if (big == MAP_FAILED) {
+      r.tag("hugekey_mapping_unavailable");
+      return;
+    }
+    int fd = open("/dev/null", O_WRONLY);
+    struct mtbl_writer_options *wo = mtbl_writer_options_init();
+    mtbl_writer_options_set_compression(wo, MTBL_COMPRESSION_NONE);
+    struct mtbl_writer *w = mtbl_writer_init_fd(fd, wo);
+    mtbl_writer_options_destroy(&wo);
+    if (!w) {
+      r.failf("mtbl_writer_init_fd(/dev/null) failed");
+      return;
+    }
+    const uint8_t one[1] = {0};
+    struct Step { const uint8_t *k; size_t len; bool want; const char *what; } steps[] = {
+        {one, 1, true, "first key 00"},
+        {big, L, true, "key of 2^31+1 zero bytes (a proper extension of the last key, 2^31 bytes longer)"},
+        {big, 7, false, "key of 7 zero bytes (a proper prefix of the last key, more than 2^31 bytes shorter)"},
+        {big, L, false, "the same 2^31+1-byte key again (equal to the last key)"},
+        {big, L - 1, false, "key of 2^31 zero bytes (a proper prefix of the last key, one byte shorter)"},
+    };
+    for (auto &st : steps) {
+      bool got = mtbl_writer_add(w, st.k, st.len, one, 0) == mtbl_res_success;
+      if (got != st.want) {
+        r.failf("mtbl_writer_add of the %s was %s, expected %s", st.what, got ? "accepted" : "refused", st.want ? "accepted" : "refused");
+        break;
+      }
+    }
+    mtbl_writer_destroy(&w);
+    close(fd);
+    munmap(big, L);
+    r.nontrivial = true;
+    r.tag("key_lengths_differ_by_2^31");
+  }, 600);
+  g_rss_limit_mb = saved;
+  return res;
+}
+
 static Result run_case(const Case &c) {
+  if (c.hugekey) return run_hugekey();
   return run_isolated([&](Result &r) {
     KVs calls = expand_entries(c.h.adds);
     std::vector<bool> want_acc;
@@ -144,5 +201,18 @@ static Result run_case(const Case &c) {
 int main(int argc, char **argv) {
   g_history_enabled = true;  // process-history modes (harness/vf.h): prelude first / the case body twice in one process
   g_prelude_fn = table_prelude;
-  return vf_main<Case>(argc, argv, "C08", gen_case, run_case);
+  return vf_main<Case>(argc, argv, "C08", gen_case, run_case, [](const WorkerOpts &o, Stats &stats) -> int {
+    if (o.mode != "hugekey") return 2;
+    if (o.worker != 0) return 0;
+    Case c;
+    c.hugekey = 1;
+    Result r = run_case(c);
+    stats.add(c.ser(), r);
+    if (r.fail) {
+      write_file(o.outdir + "/fail.case", c.ser());
+      write_file(o.outdir + "/fail.msg", r.msg);
+      return 1;
+    }
+    return 0;
+  });
 }
